@@ -106,3 +106,168 @@ Theorem returned_is_recorded rb s h t q s' :
   xreach rb s h -> valid_tid t -> pcs s t = PA_xchg q -> gstep s t = Some s' ->
   pre (hstep s (AStep t) s' h) (nextid s) = returned h.
 Proof. intros _ _ Hpc _. unfold hstep. rewrite Hpc. cbn [pre]. apply upd_same. Qed.
+
+(* ---------------------------------------------------------------- "A has finished when B starts" *)
+(* how a step changes the list of started callouts *)
+Lemma gstep_started s u s' : gstep s u = Some s' ->
+  started s' = started s \/ exists o i m, pcs s u = PW_run o i m /\ started s' = i :: started s /\ pcs s' u = PW_incall o i m.
+Proof.
+  intros B. unfold gstep in B. destruct (pcs s u) eqn:Hpc; try discriminate.
+  all: try solve [right; injection B as <-; do 3 eexists; cbn [started pcs]; rewrite upd_same; repeat split; reflexivity].
+  all: left;
+    repeat match type of B with
+           | context [match ?x with _ => _ end] => destruct x; try discriminate
+           end;
+    injection B as <-; reflexivity.
+Qed.
+
+Lemma cons_neq (x : Z) l : x :: l <> l.
+Proof. induction l as [|y l IH]; intros E; [discriminate|]. injection E as E1 E2. apply IH. rewrite <- E1 in E2. exact E2. Qed.
+
+Definition RunHead (s : gst) : Prop := forall t o i m, pcs s t = PW_incall o i m -> exists rest, started s = i :: rest.
+
+Lemma RunHead_reach rb s : 0 <= rb < 2 -> reach rb s -> RunHead s.
+Proof.
+  intros Hrb R. induction R as [s0 ->|s a s' R IH St].
+  - intros t o i m H. unfold init_state in H; cbn in H. discriminate.
+  - pose proof (Inv_reachable rb s Hrb R) as I.
+    intros t o i m H. destruct a as [u c|u|u]; destruct St as [V B].
+    + assert (E : started s' = started s /\ (u = t -> False)).
+      { unfold begin in B. destruct (pcs s u) eqn:Hu; try discriminate. destruct c.
+        - destruct ((0 <=? qos) && (qos <? 8)); [|discriminate]. injection B as <-. split; [reflexivity|].
+          intros ->. cbn [pcs set_pc] in H. rewrite upd_same in H. discriminate.
+        - destruct (0 <? rootq s); [|discriminate]. injection B as <-. split; [reflexivity|].
+          intros ->. cbn [pcs set_pc set_token set_rootq] in H. rewrite upd_same in H. discriminate. }
+      destruct E as [E N]. rewrite E. apply (IH t o i m).
+      rewrite <- (begin_frame s u c s' t B); [exact H|]. intros ->. apply N. reflexivity.
+    + destruct (gstep_started s u s' B) as [E|(o1 & i1 & m1 & Hu & E & Hu')].
+      * rewrite E. destruct (Z.eq_dec t u) as [->|N].
+        -- (* u itself ends up in a callout without having started one: it was already there, impossible since every step moves on *)
+           exfalso. unfold gstep in B. destruct (pcs s u) eqn:Hpc; try discriminate;
+             repeat match type of B with
+                    | context [match ?x with _ => _ end] => destruct x; try discriminate
+                    end;
+             injection B as <-; cbn [pcs set_pc set_st set_lst set_rootq set_token set_wakers started] in *;
+             rewrite upd_same in H; try discriminate.
+           cbn [started] in E. exact (cons_neq _ _ E).
+        -- apply (IH t o i m). rewrite <- (gstep_frame s u s' t B N). exact H.
+      * destruct (Z.eq_dec t u) as [->|N].
+        -- rewrite Hu' in H. injection H as <- <- <-. exists (started s). exact E.
+        -- exfalso. rewrite (gstep_frame s u s' t B N) in H.
+           assert (Tu : token_pc (pcs s u) = true) by (rewrite Hu; reflexivity).
+           assert (Tt : token_pc (pcs s t) = true) by (rewrite H; reflexivity).
+           apply N. symmetry. exact (holder_unique s u t I Tu Tt).
+    + assert (E : started s' = started s /\ (u = t -> False)).
+      { unfold ostep in B. destruct (pcs s u) eqn:Hu; try discriminate. destruct was_empty; [discriminate|]. injection B as <-.
+        split; [reflexivity|]. intros ->. cbn [pcs set_pc set_lst] in H. rewrite upd_same in H. discriminate. }
+      destruct E as [E N]. rewrite E. apply (IH t o i m).
+      rewrite <- (ostep_frame s u s' t B); [exact H|]. intros ->. apply N. reflexivity.
+Qed.
+
+Definition finished (s : gst) (i : Z) : Prop := In i (started s) /\ forall t, running s <> Some (t, i).
+
+(* every callout that began before the most recent one has ended *)
+Theorem earlier_started_have_finished rb s b rest a :
+  0 <= rb < 2 -> reach rb s -> started s = b :: rest -> In a rest -> finished s a.
+Proof.
+  intros Hrb R E Ha. split; [rewrite E; right; exact Ha|].
+  intros t Hr. destruct (Inv_reachable rb s Hrb R) as [[r G] T].
+  pose proof (g_running s r G) as Gr. rewrite Hr in Gr.
+  destruct (token s) as [[w|]|] eqn:K; try discriminate.
+  unfold running_pc in Gr. destruct (pcs s w) eqn:Hw; try discriminate. injection Gr as E1 E2.
+  destruct (RunHead_reach rb s Hrb R w owned i more Hw) as [rest' E'].
+  rewrite E in E'. injection E' as Eb _.
+  destruct (started_in_order rb s Hrb R) as (_ & _ & ND & _). rewrite E in ND. inversion ND as [|x l Hx Hl]. subst.
+  apply Hx. exact Ha.
+Qed.
+
+(* ... and at the very step at which a callout begins, no callout of the lane is running: everything started before has ended *)
+Theorem start_finds_nothing_running rb s t o b m :
+  0 <= rb < 2 -> reach rb s -> pcs s t = PW_run o b m -> running s = None /\ forall a, In a (started s) -> finished s a.
+Proof.
+  intros Hrb R Hpc. destruct (Inv_reachable rb s Hrb R) as [[r G] T].
+  pose proof (holder s t (T t)) as K. rewrite Hpc in K. specialize (K eq_refl).
+  pose proof (g_running s r G) as Gr. rewrite K, Hpc in Gr. cbn [running_pc] in Gr.
+  split; [exact Gr|]. intros a Ha. split; [exact Ha|]. intros u. rewrite Gr. discriminate.
+Qed.
+
+(* ---------------------------------------------------------------- program order of one thread *)
+Definition carrying (p : pc) : bool :=
+  match p with PA_link _ _ _ | PA_probe _ | PA_wake _ _ | PA_rootpush | PA_oprobe _ | PA_owake _ => true | _ => false end.
+
+(* a thread that is not in the middle of a submission has its last submitted item recorded as returned *)
+Definition ProgOrd (s : gst) (h : hist) : Prop :=
+  forall t, carrying (pcs s t) = false -> cur h t = -1 \/ In (cur h t) (returned h).
+
+Lemma carrying_step s u s' : gstep s u = Some s' ->
+  (carrying (pcs s u) = true -> carrying (pcs s' u) = true \/ pcs s' u = Idle) /\
+  (carrying (pcs s u) = false -> carrying (pcs s' u) = false \/ exists q, pcs s u = PA_xchg q).
+Proof.
+  intros B. unfold gstep in B. destruct (pcs s u) eqn:Hpc; try discriminate.
+  all: repeat match type of B with
+              | context [match ?x with _ => _ end] => destruct x; try discriminate
+              end;
+       injection B as <-; cbn [pcs set_pc set_st set_lst set_rootq set_token set_wakers]; rewrite upd_same; cbn [carrying];
+       split; intros H; try discriminate; eauto.
+Qed.
+
+Lemma hstep_nonxchg s u s' h : (forall q, pcs s u <> PA_xchg q) ->
+  cur (hstep s (AStep u) s' h) = cur h /\ pre (hstep s (AStep u) s' h) = pre h /\
+  ((returned (hstep s (AStep u) s' h) = returned h) \/
+   (returned (hstep s (AStep u) s' h) = cur h u :: returned h /\ in_async (pcs s u) = true /\ pcs s' u = Idle)).
+Proof.
+  intros NX. unfold hstep. destruct (pcs s u) eqn:Hu; try (exfalso; apply (NX i); reflexivity).
+  all: destruct (in_async _) eqn:A; cbn [andb]; try (repeat split; left; reflexivity).
+  all: destruct (pcs s' u) eqn:Hu'; cbn [is_idle]; repeat split; try (left; reflexivity).
+  all: right; repeat split; reflexivity.
+Qed.
+
+Lemma carrying_in_async p : carrying p = true -> in_async p = true.
+Proof. destruct p; cbn; try discriminate; reflexivity. Qed.
+
+Lemma ProgOrd_reach rb s h : xreach rb s h -> ProgOrd s h.
+Proof.
+  induction 1 as [|s h a s' X IH St].
+  - intros t _. left. reflexivity.
+  - intros t Hc. destruct a as [u c|u|u]; destruct St as [V B].
+    + (* begin: no ghost change; the beginner's new pc is not carrying, neither was Idle *)
+      cbn [hstep]. destruct (Z.eq_dec t u) as [->|N].
+      * apply IH. unfold begin in B. destruct (pcs s u); try discriminate. reflexivity.
+      * apply IH. rewrite <- (begin_frame s u c s' t B N). exact Hc.
+    + destruct (pcs s u) eqn:Hu.
+      2: { (* PA_xchg: the thread becomes carrying; the others are unaffected *)
+        unfold hstep. rewrite Hu. cbn [cur returned].
+        destruct (Z.eq_dec t u) as [->|N].
+        - exfalso. unfold gstep in B. rewrite Hu in B. injection B as <-. cbn [pcs] in Hc. rewrite upd_same in Hc. discriminate.
+        - rewrite upd_other by exact N. apply IH. rewrite <- (gstep_frame s u s' t B N). exact Hc. }
+      all: assert (NX : forall q, pcs s u <> PA_xchg q) by (rewrite Hu; discriminate);
+           destruct (hstep_nonxchg s u s' h NX) as (Ec & _ & Er); rewrite Ec;
+           (assert (Mono : forall x, In x (returned h) -> In x (returned (hstep s (AStep u) s' h)))
+              by (intros x Hx; destruct Er as [Er|(Er & _ & _)]; rewrite Er; [exact Hx | right; exact Hx]));
+           destruct (Z.eq_dec t u) as [->|N];
+           [ destruct (carrying_step s u s' B) as [C1 C2];
+             destruct (carrying (pcs s u)) eqn:Cu;
+             [ (* was carrying, is not any more: the call returned, its item is recorded *)
+               destruct (C1 eq_refl) as [C|C]; [congruence|];
+               destruct Er as [Er|(Er & _ & _)];
+               [ exfalso; unfold hstep in Er; rewrite Hu in Er; rewrite <- Hu in Er; rewrite (carrying_in_async _ Cu), C in Er; cbn in Er;
+                 apply (cons_neq _ _ Er)
+               | right; rewrite Er; left; reflexivity ]
+             | destruct (IH u Cu) as [E|E]; [left; exact E | right; apply Mono; exact E] ]
+           | assert (Hc0 : carrying (pcs s t) = false) by (rewrite <- (gstep_frame s u s' t B N); exact Hc);
+             destruct (IH t Hc0) as [E|E]; [left; exact E | right; apply Mono; exact E] ].
+    + cbn [hstep]. destruct (Z.eq_dec t u) as [->|N].
+      * exfalso. unfold ostep in B. destruct (pcs s u); try discriminate. destruct was_empty; [discriminate|]. injection B as <-.
+        cbn [pcs set_pc set_lst] in Hc. rewrite upd_same in Hc. discriminate.
+      * apply IH. rewrite <- (ostep_frame s u s' t B N). exact Hc.
+Qed.
+
+(* program order: when a thread's next dispatch_async exchanges the tail, the item of its previous dispatch_async (if any)
+   is in `pre` of the new item, hence older (realtime_order) and started earlier (realtime_fifo) *)
+Theorem same_thread_order rb s h t q s' :
+  0 <= rb < 2 -> xreach rb s h -> valid_tid t -> pcs s t = PA_xchg q -> gstep s t = Some s' ->
+  cur h t = -1 \/ In (cur h t) (pre (hstep s (AStep t) s' h) (nextid s)).
+Proof.
+  intros Hrb X V Hpc B. rewrite (returned_is_recorded rb s h t q s' X V Hpc B).
+  apply (ProgOrd_reach rb s h X t). rewrite Hpc. reflexivity.
+Qed.
